@@ -5,6 +5,7 @@
   corresponding map operation, guarded as the property says.
 -/
 import Hagall.Proofs.Frame
+import Hagall.Proofs.DataInv
 namespace Hagall.Props.C12
 open Hagall
 
@@ -183,5 +184,19 @@ theorem C12_entity_removed (eid : Nat) :
     ∀ c, c ∈ (s.removeEntity eid).comps ↔ c ∈ s.comps ∧ c.eid ≠ eid := by
   intro c; simp [Session.removeEntity, List.mem_filter]
 
+
+end Hagall.Props.C12
+
+namespace Hagall.Props.C12
+open Hagall
+
+/-- `KeysUnique`, "every component belongs to a live entity" and "every component's type is registered"
+    hold in every session of every state reachable by any history - the store really is a partial map. -/
+theorem C12_map_invariant (cfg : Cfg) (h : List Event) :
+    ∀ s ∈ (run cfg {} h).1.sessions,
+      KeysUnique s ∧ (∀ c ∈ s.comps, (s.findEnt c.eid).isSome) ∧ (∀ c ∈ s.comps, (s.typeName c.tid).isSome) := by
+  intro s hs
+  have := (run_AllInv cfg h (Server.AllInv_init cfg) s hs).1
+  exact ⟨this.comp_keys, this.comp_ent, this.comp_type⟩
 
 end Hagall.Props.C12
